@@ -18,6 +18,15 @@ Props == {"C01", "C02", "C03", "C04", "C05", "C06", "C07", "C08", "C09", "C10",
 
 Al(c) == IF Has(c, "al") THEN c.al ELSE 0
 
+\* extents (at, length) carried by an outcome
+ExtOfRec(r) == IF Has(r, "at") THEN {<<r.at, IF Has(r, "sv") THEN r.sv ELSE IF Has(r, "len") THEN r.len ELSE 0>>} ELSE {}
+Exts(o) ==
+  CASE o.k = "ref" -> {<<o.at, o.len>>}
+    [] o.k \in {"some", "ok"} ->
+         IF Has(o.v, "k") THEN (IF o.v.k = "ok" THEN ExtOfRec(o.v.v) ELSE {}) ELSE ExtOfRec(o.v)
+    [] OTHER -> {}
+Inside(e, lo, hi) == e[1] >= lo /\ e[2] >= 0 /\ e[1] + e[2] <= hi
+
 \* ---- tracked state -------------------------------------------------------------
 \* loaded : "none" | "bi" | "hdr"
 \* its    : iterator id |-> [kind, k (items yielded so far), dead]
@@ -105,14 +114,20 @@ AcceptWalkNth(w, k, dead, n, o) ==
 AcceptWalkCount(w, k, dead, o) ==
   IF dead THEN TRUE
   ELSE IF w.fin = "none" THEN IsVal(o, U64Bytes(IF k <= Len(w.items) THEN Len(w.items) - k ELSE 0)) ELSE o.k = "panic"
+AcceptWalkLast(w, k, dead, o) ==
+  IF dead THEN TRUE
+  ELSE IF w.fin = "panic" THEN o.k = "panic"
+  ELSE IF k < Len(w.items) THEN o.k = "some" /\ o.v.at = w.items[Len(w.items)].at /\ o.v.sv = RoundUp8(w.items[Len(w.items)].size)
+  ELSE o.k = "none"
 \* receiver missing (constructor never returned): only "skipped" is acceptable
 C03_Accept(c, trk, call, o) ==
   CASE call.op = "tags" -> IF trk.loaded = "bi" THEN o.k = "unit" ELSE o.k = "skipped"
     [] call.op = "module_tags" -> IF trk.loaded = "bi" THEN o.k = "unit" ELSE o.k = "skipped"
     [] call.op = "clone" -> IF HasIt(trk, call.it) THEN o.k = "unit" ELSE o.k = "skipped"
-    [] call.op \in {"nth", "count"} /\ HasIt(trk, call.it) /\ ItOf(trk, call.it).kind = "tags" ->
+    [] call.op \in {"nth", "count", "last"} /\ HasIt(trk, call.it) /\ ItOf(trk, call.it).kind = "tags" ->
          LET s == ItOf(trk, call.it)  w == InfoWalk(c.mem) IN
-         IF call.op = "nth" THEN AcceptWalkNth(w, s.k, s.dead, call.n, o) ELSE AcceptWalkCount(w, s.k, s.dead, o)
+         IF call.op = "nth" THEN AcceptWalkNth(w, s.k, s.dead, call.n, o)
+         ELSE IF call.op = "last" THEN AcceptWalkLast(w, s.k, s.dead, o) ELSE AcceptWalkCount(w, s.k, s.dead, o)
     [] call.op = "count" /\ HasIt(trk, call.it) /\ ItOf(trk, call.it).kind = "module_tags" ->
          LET s == ItOf(trk, call.it)  w == InfoWalk(c.mem)  ms == ModItems(w)
              rest == SubSeq(ms, s.k + 1, Len(ms)) IN
@@ -289,6 +304,10 @@ C05_Accept(c, trk, call, o) ==
 \* C15: a typed view either panics or sits at the tag's address with the tag's rounded size
 C15_Accept(c, trk, call, o) ==
   IF call.op = "custom_get" THEN (IF trk.loaded # "bi" THEN o.k = "skipped" ELSE AcceptCustomGet(c, call, o))
+  \* the typed view's fields alias the tag's bytes: whatever an accessor hands out lies inside the (rounded) tag
+  ELSE IF call.op \in {"field", "str", "area"} /\ trk.loaded = "bi" THEN
+       LET K == InfoKind(KindOfCall(call))  f == FindSpec(InfoWalk(c.mem), K.id) IN
+       f.k = "found" => \A e \in Exts(o) : Inside(e, f.it.at, f.it.at + RoundUp8(f.it.size))
   ELSE IF call.op # "get" \/ trk.loaded # "bi" THEN TRUE
   ELSE LET K == InfoKind(call.kind)  f == FindSpec(InfoWalk(c.mem), K.id) IN
        f.k = "found" =>
@@ -322,13 +341,15 @@ C18_Accept(c, trk, call, o) ==
   CASE call.op = "efi_areas" ->
          IF trk.loaded # "bi" THEN o.k = "skipped"
          ELSE AcceptIterNew(c, "efi_mmap", HasTagIt(c, "efi_mmap") /\ EfiValid(EfiParams(c.mem, EfiIt(c))), o)
-    [] call.op \in {"nth", "count"} /\ HasIt(trk, call.it) /\ ItOf(trk, call.it).kind = "efi" ->
+    [] call.op \in {"nth", "count", "last"} /\ HasIt(trk, call.it) /\ ItOf(trk, call.it).kind = "efi" ->
          LET s == ItOf(trk, call.it) IN
          IF ~HasTagIt(c, "efi_mmap") THEN FALSE
          ELSE LET p == EfiParams(c.mem, EfiIt(c)) IN
               IF ~EfiValid(p) THEN o.k = "panic" \/ (s.dead /\ o.k = "none")
               ELSE IF s.dead THEN TRUE
-              ELSE IF call.op = "count" THEN IsVal(o, U64Bytes(IF s.k <= EfiCount(p) THEN EfiCount(p) - s.k ELSE 0))
+              ELSE IF call.op = "count" THEN IsVal(o, U64Bytes(EfiRem(p, s.k)))
+              ELSE IF call.op = "last" THEN
+                   (IF EfiRem(p, s.k) > 0 THEN o.k = "some" /\ o.v.at = EfiItem(c.mem, EfiIt(c), p, EfiCount(p) - 1).at ELSE o.k = "none")
               ELSE IF s.k + call.n < EfiCount(p) THEN o.k = "some" /\ o.v.at = EfiItem(c.mem, EfiIt(c), p, s.k + call.n).at
               ELSE o.k = "none"
     [] call.op \in {"next", "len", "size_hint"} /\ HasIt(trk, call.it) /\ ItOf(trk, call.it).kind = "efi" ->
@@ -345,6 +366,16 @@ C19_Accept(c, trk, call, o) ==
     [] call.op = "elf_sections_deprecated" ->      \* the deprecated getter may reject more (its own partial bound)
          IF trk.loaded # "bi" THEN o.k = "skipped"
          ELSE AcceptIterNew(c, "elf", FALSE, o)
+    [] call.op \in {"nth", "count", "last"} /\ HasIt(trk, call.it) /\ ItOf(trk, call.it).kind = "elf" ->
+         LET s == ItOf(trk, call.it) IN
+         IF ~HasTagIt(c, "elf") THEN FALSE
+         ELSE LET p == ElfParams(c.mem, ElfIt(c)) IN
+              IF ~ElfFits(p) THEN o.k = "panic" \/ (s.dead /\ o.k \in {"none", "val"})
+              ELSE IF p.es \notin {40, 64} \/ s.dead THEN Controlled(o)
+              ELSE LET xs == ElfItems(c.mem, ElfIt(c), p)  rem == IF s.k <= Len(xs) THEN Len(xs) - s.k ELSE 0 IN
+                   CASE call.op = "count" -> IsVal(o, U64Bytes(rem))
+                     [] call.op = "last" -> IF rem > 0 THEN IsElfItem(o, xs[Len(xs)]) ELSE o.k = "none"
+                     [] OTHER -> IF s.k + call.n < Len(xs) THEN IsElfItem(o, xs[s.k + call.n + 1]) ELSE o.k = "none"
     [] call.op = "next" /\ HasIt(trk, call.it) /\ ItOf(trk, call.it).kind = "elf" ->
          LET s == ItOf(trk, call.it) IN
          IF ~HasTagIt(c, "elf") THEN FALSE
@@ -354,14 +385,6 @@ C19_Accept(c, trk, call, o) ==
 C_Skipped(c, trk, call, o) ==
   (call.op \in {"next", "len", "size_hint", "clone"} /\ ~HasIt(trk, call.it)) => o.k = "skipped"
 
-\* extents (at, length) carried by an outcome
-ExtOfRec(r) == IF Has(r, "at") THEN {<<r.at, IF Has(r, "sv") THEN r.sv ELSE IF Has(r, "len") THEN r.len ELSE 0>>} ELSE {}
-Exts(o) ==
-  CASE o.k = "ref" -> {<<o.at, o.len>>}
-    [] o.k \in {"some", "ok"} ->
-         IF Has(o.v, "k") THEN (IF o.v.k = "ok" THEN ExtOfRec(o.v.v) ELSE {}) ELSE ExtOfRec(o.v)
-    [] OTHER -> {}
-Inside(e, lo, hi) == e[1] >= lo /\ e[2] >= 0 /\ e[1] + e[2] <= hi
 \* ---- header crate: C09 / C10 / C11 / C13 ---------------------------------------------------------
 HeaderOps == {"hload", "htags", "hget", "hfield", "hacc", "hdbg"}
 IsHdrRead(call) == call.op \in {"hget", "hfield"}
@@ -414,9 +437,10 @@ C11_Accept(c, trk, call, o) ==
     [] call.op = "htags" -> IF trk.loaded = "hdr" THEN o.k = "unit" ELSE o.k = "skipped"
     [] call.op = "next" /\ HasIt(trk, call.it) /\ ItOf(trk, call.it).kind = "htags" ->
          LET s == ItOf(trk, call.it) IN AcceptHNext(HWalk(c.mem), s.k, s.dead, o)
-    [] call.op \in {"nth", "count"} /\ HasIt(trk, call.it) /\ ItOf(trk, call.it).kind = "htags" ->
+    [] call.op \in {"nth", "count", "last"} /\ HasIt(trk, call.it) /\ ItOf(trk, call.it).kind = "htags" ->
          LET s == ItOf(trk, call.it)  w == HWalk(c.mem) IN
-         IF call.op = "nth" THEN AcceptWalkNth(w, s.k, s.dead, call.n, o) ELSE AcceptWalkCount(w, s.k, s.dead, o)
+         IF call.op = "nth" THEN AcceptWalkNth(w, s.k, s.dead, call.n, o)
+         ELSE IF call.op = "last" THEN AcceptWalkLast(w, s.k, s.dead, o) ELSE AcceptWalkCount(w, s.k, s.dead, o)
     [] IsHdrRead(call) ->
          IF trk.loaded # "hdr" THEN o.k = "skipped"
          ELSE LET g == HGetSpec(c.mem, call.kind) IN
@@ -428,7 +452,7 @@ C05_HAccept(c, trk, call, o) ==
   ELSE AcceptHdrRead(c, trk, call, o)
 \* C09: never outside the declared header, never a crash
 C09_Accept(c, trk, call, o) ==
-  IF call.op \in HeaderOps \/ (call.op \in {"next", "clone", "nth", "count"} /\ HasIt(trk, call.it) /\ ItOf(trk, call.it).kind = "htags")
+  IF call.op \in HeaderOps \/ (call.op \in {"next", "clone", "nth", "count", "last"} /\ HasIt(trk, call.it) /\ ItOf(trk, call.it).kind = "htags")
   THEN /\ Controlled(o)
        /\ LET L == U32At(c.mem, 8) IN \A e \in Exts(o) : Inside(e, 16, L)
   ELSE TRUE
@@ -468,7 +492,14 @@ NewBoxedHead(call, total) ==
   CASE call.h = "htag" -> U16Bytes(1) \o U16Bytes(0) \o U32Bytes(total)
     [] OTHER -> call.typ \o U32Bytes(total)
 C16_Accept(c, trk, call, o) ==
-  CASE call.op = "new_boxed" ->
+  CASE call.op = "clone_ref" ->
+         \* cloning the structure found in the image: same declared size, same bytes up to it
+         LET H == HeaderByName(call.h)  s == RefFromSliceSpec(H, Len(c.mem), Al(c), Declared(c, H)) IN
+         IF s.k = "err" THEN o.k = "err"
+         ELSE IF s.k = "free" THEN Controlled(o)
+         ELSE LET d == Declared(c, H) IN
+              o.k = "ok" /\ EqUpTo(o.v.bytes, c.mem, d, FALSE) /\ o.v.sv = RoundUp8(d) /\ o.v.al = 0 /\ o.v.plen = d - H.hsize
+    [] call.op = "new_boxed" ->
          LET body == FlatMap(LAMBDA x : x, call.slices)
              total == 8 + Len(body)
              E == NewBoxedHead(call, total) \o body IN
@@ -502,7 +533,7 @@ C20_Accept(c, trk, call, o) ==
     [] OTHER -> TRUE
 
 \* ---- C01: never outside the region, never a crash, references inside the owning tag ------------
-InfoOps == {"nth", "count", "custom_get", "load", "tags", "module_tags", "efi_areas", "elf_sections", "elf_sections_deprecated", "next", "clone",
+InfoOps == {"nth", "count", "last", "custom_get", "load", "tags", "module_tags", "efi_areas", "elf_sections", "elf_sections_deprecated", "next", "clone",
             "len", "size_hint", "get", "field", "str", "area", "dbg", "elf_field", "elf_name"}
 \* the extent a call's results must stay in
 OwnerExtent(c, trk, call) ==
@@ -515,7 +546,7 @@ OwnerExtent(c, trk, call) ==
   ELSE IF call.op = "load" THEN <<0, T>>
   ELSE <<8, T>>
 C01_Accept(c, trk, call, o) ==
-  IF call.op \notin InfoOps \/ (call.op \in {"next", "clone", "len", "size_hint", "nth", "count"} /\ HasIt(trk, call.it)
+  IF call.op \notin InfoOps \/ (call.op \in {"next", "clone", "len", "size_hint", "nth", "count", "last"} /\ HasIt(trk, call.it)
                                 /\ ItOf(trk, call.it).kind \in {"htags", "dummy"}) THEN TRUE
   ELSE /\ Controlled(o)
        /\ LET oe == OwnerExtent(c, trk, call) IN \A e \in Exts(o) : Inside(e, oe[1], oe[2])
@@ -626,8 +657,8 @@ DesignCustomGet(c, call) ==
             ELSE Some([at |-> r.v.at, sv |-> r.v.sv, tat |-> f.it.at + RoundUp(call.fixed, call.ea), n |-> r.v.n, tlen |-> r.v.n * call.es])
 
 \* the default Iterator::nth / count: repeated next().  left = calls still to make (-1: until None); cnt = items seen
-RECURSIVE DesignIterMany(_, _, _, _, _)
-NthView(o) == IF o.k = "some" THEN Some([at |-> o.v.at, sv |-> IF Has(o.v, "sv") THEN o.v.sv ELSE 40]) ELSE o
+RECURSIVE DesignIterMany(_, _, _, _, _, _)
+NthView(o, kind) == IF o.k = "some" /\ kind # "elf" THEN Some([at |-> o.v.at, sv |-> IF Has(o.v, "sv") THEN o.v.sv ELSE 40]) ELSE o
 DesignStep(c0, ds, call) ==
   LET c == IF ds.img = "info" THEN [c0 EXCEPT !.mem = ds.built]
            ELSE IF ds.img = "header" THEN [c0 EXCEPT !.mem = ds.hbuilt] ELSE c0 IN
@@ -639,6 +670,11 @@ DesignStep(c0, ds, call) ==
          [o |-> DesignRefFromSlice(H, Len(c.mem), Al(c), Declared(c, H)), ds |-> ds]
     [] call.op = "bytes_ref" ->
          [o |-> BytesRefSpec(HeaderByName(call.h), Len(c.mem), Al(c)), ds |-> ds]
+    [] call.op = "clone_ref" ->
+         LET H == HeaderByName(call.h)  r == DesignRefFromSlice(H, Len(c.mem), Al(c), Declared(c, H)) IN
+         [o |-> IF r.k # "ok" THEN r
+                ELSE LET d == Declared(c, H) IN Ok([bytes |-> PadTo8(SubSeq(c.mem, 1, d)), sv |-> RoundUp8(d), al |-> 0, plen |-> d - H.hsize]),
+          ds |-> ds]
     [] call.op = "round8" ->       \* increase_to_alignment: (n + 7) with the low three bits cleared
          LET n == LE4(call.n) IN [o |-> Val(U32Bytes((n + 7) - ((n + 7) % 8)) \o <<0, 0, 0, 0>>), ds |-> ds]
     [] call.op = "load" /\ Has(c, "memx") -> [o |-> LoadSpecX(c.memx), ds |-> ds]
@@ -683,10 +719,11 @@ DesignStep(c0, ds, call) ==
                      LET r == IF s.kind = "tags" THEN DesignTagNext(c.mem, s.end, s.cur, s.dead)
                               ELSE DesignModNext(c.mem, s.end, s.cur, s.dead) IN
                      [o |-> r.o, ds |-> DsSetIt(ds, call.it, [s EXCEPT !.cur = r.cur, !.dead = r.dead])]
-    [] call.op \in {"nth", "count"} ->
+    [] call.op \in {"nth", "count", "last"} ->
          IF ~DsHasIt(ds, call.it) THEN [o |-> Skipped, ds |-> ds]
-         ELSE LET r == DesignIterMany(c, ds, call.it, IF call.op = "nth" THEN call.n + 1 ELSE -1, 0) IN
-              IF call.op = "nth" THEN [o |-> NthView(r.o), ds |-> r.ds]
+         ELSE LET r == DesignIterMany(c, ds, call.it, IF call.op = "nth" THEN call.n + 1 ELSE -1, 0, None) IN
+              IF call.op = "nth" THEN [o |-> NthView(r.o, ds.its[call.it].kind), ds |-> r.ds]
+              ELSE IF call.op = "last" THEN [o |-> IF r.o.k = "panic" THEN Panic ELSE NthView(r.prev, ds.its[call.it].kind), ds |-> ds]
               ELSE [o |-> IF r.o.k = "panic" THEN Panic ELSE Val(U64Bytes(r.cnt)), ds |-> ds]
     [] call.op \in {"len", "size_hint"} ->
          IF ~DsHasIt(ds, call.it) THEN [o |-> Skipped, ds |-> ds]
@@ -764,11 +801,11 @@ DesignStep(c0, ds, call) ==
          [o |-> IF ds.loaded = "none" THEN Skipped ELSE Unit, ds |-> ds]
     [] OTHER -> [o |-> [k |-> "unsupported"], ds |-> ds]
 
-DesignIterMany(c, ds, it, left, cnt) ==
-  LET r == DesignStep(c, ds, [op |-> "next", it |-> it]) IN
-  IF r.o.k # "some" THEN [o |-> r.o, ds |-> r.ds, cnt |-> cnt]
-  ELSE IF left = 1 THEN [o |-> r.o, ds |-> r.ds, cnt |-> cnt + 1]
-  ELSE DesignIterMany(c, r.ds, it, IF left < 0 THEN left ELSE left - 1, cnt + 1)
+DesignIterMany(c, ds, it, left, cnt, prev) ==
+  LET r == DesignStep(c, ds, [op |-> "next", it |-> it, names |-> FALSE]) IN
+  IF r.o.k # "some" THEN [o |-> r.o, ds |-> r.ds, cnt |-> cnt, prev |-> prev]
+  ELSE IF left = 1 THEN [o |-> r.o, ds |-> r.ds, cnt |-> cnt + 1, prev |-> r.o]
+  ELSE DesignIterMany(c, r.ds, it, IF left < 0 THEN left ELSE left - 1, cnt + 1, r.o)
 
 \* ---- dispatch -------------------------------------------------------------------------
 \* the image under test: after use_built, the bytes the builder produced (as observed)
